@@ -355,10 +355,18 @@ def run_corpus(tag):
 # ---------------------------------------------------------------------------------------------
 # trace validation
 # ---------------------------------------------------------------------------------------------
+def traceable(record):
+    """A tree with a part the XML reader could not project (reported separately as delta-xml) cannot be walked by TLC."""
+    for n in record.get("pre", []):
+        if str(n.get("k", "?")).startswith("?") or n.get("bytes") == "?" or "?" in (n.get("v"), n.get("n")):
+            return False
+    return all("k" in t and t["k"] != "error" and "undecodable" not in t and t.get("v", 0) is not None for t in record.get("toks", []))
+
+
 def validate_traces(records, tag, chunks=8):
     """records: [{id, toks, pre, ...}] as written by `pvh_grammar record` (accepted runs only).
     Returns (accepted_ids, rejections[{record, node_index}])."""
-    records = [r for r in records if r.get("o") == "ok"]
+    records = [r for r in records if r.get("o") == "ok" and traceable(r)]
     if not records:
         return [], []
     chunks = max(1, min(chunks, len(records)))
